@@ -112,6 +112,28 @@ def r182_r183(repo, ctx, index):
         ok = isinstance(a, ast.BinOp) and isinstance(a.op, ast.Sub) and U.src(a.left) == 'model.pData.time[model.pData.n]' and U.src(a.right).replace(' ', '') == 'model.pData.time[model.pData.n-1]'
     ctx.check(ok, 'R18.3', GG, q, calls[0] if calls else f, 'the grain-growth model is solved over exactly the host step time[n] - time[n-1]',
               'the grain-growth model is not advanced by exactly the host step: its clock drifts from the host clock', construct=U.src(calls[0]) if calls else 'no solve call')
+    # ... on every path: a host step on which the solve is skipped leaves the grain-growth clock behind the host clock
+    g_ = C.build(f)
+
+    def gen_(node, label):
+        if node.kind == 'stmt' and any(U.call_name(c_) == 'self.solve' for c_ in U.calls(node.ast)):
+            return {'solved'}
+        return set()
+    IN_ = C.must_forward(g_, gen_)
+    exits_ = [n_ for n_ in g_.nodes if n_.kind == 'exit']
+    skipped = []
+    for ex in exits_:
+        for pid_, lab_ in ex.pred:
+            pn_ = g_.nodes[pid_] if isinstance(g_.nodes, list) else None
+            if pn_ is None or lab_ == 'raise' or (pn_.kind == 'stmt' and isinstance(pn_.ast, ast.Raise)):
+                continue
+            facts = set(IN_.get(pid_) or set()) | gen_(pn_, lab_)
+            if 'solved' not in facts:
+                skipped.append(pn_)
+    ctx.check(bool(exits_) and not skipped, 'R18.3', GG, q, skipped[0].ast if skipped and skipped[0].ast is not None else f,
+              'every path through updateCoupledModel advances the grain-growth model (solve is called before every normal exit)',
+              'updateCoupledModel can return without advancing the grain-growth model: on such host steps its clock falls behind the host clock',
+              construct='updateCoupledModel: solve on every path')
     pp = repo.func(GG, 'GrainGrowthModel.postProcess')
     ap = [s for s in ast.walk(pp) if isinstance(s, ast.Assign) and U.chain(s.targets[0]) == ('self', 'time')]
     ok = len(ap) == 1 and U.src(ap[0].value).replace(' ', '') == f'np.append(self.time,{U.params(pp)[1]})'
